@@ -127,6 +127,28 @@ def gen_termchunk(rng, depth: int) -> Dict[str, Any]:
             "sum": gen_sum(rng, depth - 1)}
 
 
+def exact_decimal(fr: Fraction) -> str:
+    """The finite decimal expansion of a non-negative dyadic rational."""
+    den = fr.denominator
+    k = den.bit_length() - 1
+    assert den == 1 << k and fr >= 0
+    digits = str(fr.numerator * 5 ** k).rjust(k + 1, "0")
+    return (digits[:-k] + "." + digits[-k:]) if k else digits
+
+
+def near_cancel(rng, ch: Dict[str, Any], sign: str) -> Optional[List[Any]]:
+    """A second occurrence of the variable of `ch` whose coefficient almost cancels the first one: the sum keeps a
+    small but real coefficient (2^-k of the first, k = 21..40; all values dyadic, so float arithmetic stays exact)."""
+    base = Fraction(1) if ch["k"] == "var" else nval(ch["n"])
+    if base <= 0 or base.denominator > 2 ** 10 or base > 1000:
+        return None
+    k = rng.choice([21, 21, 24, 30, 40])
+    val = base * (1 + rng.choice([-1, 1]) * Fraction(1, 2 ** k))
+    n = {"s": exact_decimal(val), "v": [val.numerator, val.denominator]}
+    return ["+" if sign == "-" else "-", {"k": "nv", "n": n, "v": ch["v"], "star": rng.choice(["", "*", " "])
+                                          if ch["v"][0] not in "eE" else rng.choice(["*", " "])}]
+
+
 def gen_sum(rng, depth: int, nmax: int = 3) -> List[List[Any]]:
     n = rng.randint(1, nmax)
     out = []
@@ -134,6 +156,48 @@ def gen_sum(rng, depth: int, nmax: int = 3) -> List[List[Any]]:
         sign = rng.choice(["", "", "-", "+"]) if i == 0 else rng.choice(["+", "-"])
         out.append([sign, gen_termchunk(rng, depth)])
     return out
+
+
+def gen_near_cancel_sides(rng) -> List[List[List[Any]]]:
+    """Two shallow sides (plain variables, simply spelled coefficients, at most one parenthesis or absolute value with
+    a small factor) with one almost-cancelling pair: every coefficient stays below 2^10 * 2^-40, exact in a float."""
+    def simple_chunk() -> Dict[str, Any]:
+        r = rng.random()
+        v = rng.choice(VARS)
+        if r < 0.4:
+            return {"k": "var", "v": v}
+        if r < 0.8:
+            return {"k": "nv", "n": pick_num(rng, False, simple=True, nonzero=True), "v": v, "star": sep_for(rng, v)}
+        return {"k": "num", "n": pick_num(rng, True, simple=True)}
+
+    def simple_sum(nmax: int) -> List[List[Any]]:
+        out = []
+        for i in range(rng.randint(1, nmax)):
+            out.append([rng.choice(["", "", "-", "+"]) if i == 0 else rng.choice(["+", "-"]), simple_chunk()])
+        return out
+
+    while True:
+        inner = simple_sum(3)
+        cands = [(sg, ch) for sg, ch in inner if ch["k"] in ("var", "nv")]
+        if not cands:
+            continue
+        sg, ch = rng.choice(cands)
+        extra = near_cancel(rng, ch, sg)
+        if extra is None:
+            continue
+        inner.insert(rng.randint(1, len(inner)), extra)
+        break
+    r = rng.random()
+    if r < 0.5:
+        left = inner
+    else:
+        wrap = {"k": "par" if r < 0.75 else "abs", "n": pick_num(rng, False, simple=True, nonzero=True)
+                if rng.random() < 0.5 else None, "star": rng.choice(["", "*", " "]), "sum": inner}
+        left = [[rng.choice(["", "+"]), wrap]]
+        if rng.random() < 0.5:
+            left += [[rng.choice(["+", "-"]), simple_chunk()]]
+    right = simple_sum(2)
+    return [left, right]
 
 
 def gen_abschunk(rng, depth: int, pool: List[List[List[Any]]]) -> Dict[str, Any]:
@@ -307,6 +371,8 @@ def features(case: Dict[str, Any]) -> List[str]:
         vars_of(s)
         if len(vs) != len(set(vs)):
             fs.add("repeated-variable")
+    if case.get("near_cancel"):
+        fs.add("nearly-cancelling-repeated-variable")
     return sorted(fs)
 
 
@@ -420,7 +486,12 @@ def gen_tree_case(rng) -> Dict[str, Any]:
         return rng.choice(["", " "])
 
     pool: List[List[List[Any]]] = []
-    if rng.random() < 0.2:
+    r0 = rng.random()
+    near = r0 < 0.05
+    if near:
+        sides = gen_near_cancel_sides(rng)
+        op = rng.choice(["<=", "<=", ">=", "="]) if not any(ch["k"] == "abs" for _, ch in sides[0]) else "<="
+    elif r0 < 0.24:
         op = rng.choice(["=", "=="])
         sides = [gen_sum(rng, 2), gen_sum(rng, 2)]
     else:
@@ -429,7 +500,9 @@ def gen_tree_case(rng) -> Dict[str, Any]:
         depth = rng.choice([1, 2, 2, 3])
         sides = [gen_side(rng, depth, True, pool) for _ in range(nsides)]
     case = {"kind": "tree", "op": op, "sides": sides}
-    if op in ("<=", ">=") and len(sides) == 2 and rng.random() < 0.6:
+    if near:
+        case["near_cancel"] = True
+    if op in ("<=", ">=") and len(sides) == 2 and rng.random() < 0.6 and not near:
         _bias_convex(sides, op)
     s = (sp() + op + sp()).join(render_chunks(x, sp) for x in sides)
     if sp_style == "wide":
